@@ -8,7 +8,6 @@ NA = {
  "C21": "item assignment: index normalisation and block intersection are numeric over run-time values",
  "C23": "chunk normalisation/rechunk: sums and byte limits are arithmetic over run-time values",
  "C24": "structural array ops: chunk bookkeeping arithmetic over run-time shapes",
- "C25": "lazy array metadata: per-block shapes are run-time values",
  "C27": "counting/set/search/histogram: numerical agreement with NumPy",
  "C31": "tensor products and decompositions: numerical linear algebra",
  "C32": "approximate percentiles: numeric merge; monotonicity is a value property",
